@@ -495,6 +495,8 @@ void Runner::after_wait_like(Thread *t, int idx, const Op &op, OpRes &res, HStat
     if (bad_action) { if (v != C.EINVAL_) viol("C07", "bad-action-not-rejected", "state=exited", fmt("stop with an out-of-range action returned %s", errname(v).c_str()), idx); return; }
     probe(P_cached_status);
     if (v != h.status)
+      viol("C14", "exited-state-result", fmt("op=%s", op_name[op.kind]), fmt("%s on an exited handle returned %s instead of its status %d", op_name[op.kind], errname(v).c_str(), h.status), idx);
+    if (v != h.status)
       viol("C01", "status-not-stable", fmt("op=%s", op_name[op.kind]), fmt("first status was %d, a later %s returned %s", h.status, op_name[op.kind], errname(v).c_str()), idx);
     if (res.calls != 0 || res.t1_ns != res.t0_ns)
       viol("C01", "cached-status-not-immediate", fmt("op=%s", op_name[op.kind]), fmt("%s on an exited handle made %u library calls", op_name[op.kind], res.calls), idx);
